@@ -404,8 +404,15 @@ int main(int argc, char **argv)
 		g_ds = dispatch_source_create(g_kind == K_ADD ? DISPATCH_SOURCE_TYPE_DATA_ADD : g_kind == K_OR ? DISPATCH_SOURCE_TYPE_DATA_OR :
 				DISPATCH_SOURCE_TYPE_DATA_REPLACE, 0, 0, g_q);
 		g_dr = g_ds->ds_refs;
-		dispatch_source_set_event_handler_f(g_ds, event_handler);
-		dispatch_source_set_cancel_handler_f(g_ds, cancel_handler);
+		/* both forms of the handler setters (function + context, block) */
+		if (vrt_rand() & 1) {
+			void *hctx = dispatch_get_context(g_ds);
+			dispatch_source_set_event_handler(g_ds, ^{ event_handler(hctx); });
+			dispatch_source_set_cancel_handler(g_ds, ^{ cancel_handler(hctx); });
+		} else {
+			dispatch_source_set_event_handler_f(g_ds, event_handler);
+			dispatch_source_set_cancel_handler_f(g_ds, cancel_handler);
+		}
 		vrt_unregister_all();
 		g_obj = vrt_register(g_ds, malloc_usable_size(g_ds), 1);
 		vrt_register(g_dr, malloc_usable_size(g_dr), 2);
